@@ -453,6 +453,11 @@ func report(o *options, g *Gen, verdicts []*Verdict, fnReports any, underContrac
 	fmt.Printf("govc: property=%s functions=%d obligations=%d discharged=%d known=%d covers=%d/%d failed=%d wall=%.1fs (load %.1fs, gen %.1fs, solver-cpu %.1fs)\n",
 		o.prop, underContract, total, discharged, knownHit, coversOK, covers, len(violations), wall, loadS, genS, solverS)
 	if o.verbose {
+		for _, v := range verdicts {
+			if v.Seconds > 3 {
+				fmt.Printf("  SLOW %.1fs %s %s by %s retried=%v bytes=%d\n", v.Seconds, v.Obl.Name, v.Result, v.Solver, v.Retried, v.Bytes)
+			}
+		}
 		for _, v := range failed {
 			fmt.Printf("  FAILED %s: %s (%s) %s\n", v.Obl.Name, v.Result, v.Obl.Goal, v.File)
 		}
